@@ -33,7 +33,7 @@ ASSUMPTIONS = ["CPython 3.12 import + evaluation at the use site is the referenc
                "a class referring to its own name inside its body is a forward reference in Python; not generated"]
 MANIFEST = {
     "category": "exploration",
-    "text": "Bounded exhaustive enumeration of (module position, binding forms incl. every relative-import depth, class/module/enclosing-class shadowing, 11 use sites (incl. the decorator itself, the base of a class that re-binds its name, and the same sites in the tree rebuilt from JSON; names bound twice with a resolution forced in between), plain and dotted references); each package is written to disk, imported by CPython and loaded statically; canonical_path of the referenced name must be the defining path of the object CPython finds there, names CPython cannot bind must come back unchanged, nothing may raise.",
+    "text": "Bounded exhaustive enumeration of (module position, binding forms incl. every relative-import depth, class/module/enclosing-class shadowing, 11 use sites (incl. the decorator itself, the base of a class that re-binds its name, and the same sites in the tree rebuilt from JSON; names bound twice with a resolution forced in between), plain and dotted references); each package is written to disk, imported by CPython and loaded statically; canonical_path of the referenced name must be the defining path of the object CPython finds there, names CPython cannot bind must come back unchanged, nothing may raise. Module bindings include wildcard imports of modules without __all__, with an empty __all__ and with an __all__ that does not list the name.",
     "note": "CPython is the oracle on every case; complete for the binding menu and use sites listed.",
     "technique": "model checking by exhaustive small-scope enumeration of packages on the real loader, CPython evaluation as oracle",
 }
